@@ -75,6 +75,9 @@ def crash_images(rng, lay, n):
     length, zero fill from a record boundary."""
     imgs = [[]]  # process crash: everything written is kept
     cuttable = [(i, ln, du, b) for (i, ln, du, b) in lay if ln > du]
+    if cuttable:
+        # power loss at its worst: every file loses everything that was not synced
+        imgs.append([f"fsop cut {i} {du}" for (i, ln, du, b) in cuttable])
     for _ in range(n - 1):
         ops = []
         if not cuttable:
@@ -105,6 +108,13 @@ def scripts_crash(tier, rng, prefix):
     per = 6 if tier == "quick" else 12
     bases = base_histories(rng, nb, max_ops=22, worker_steps=True, queries=(), flush_prob=(1, 2),
                            weights=dict(append=40, purge=10, truncate=6, ud=3, vote=6, commit=6))
+    # a quarter of the histories with injected EIO / short writes before the crash, and a quarter with
+    # a rotation that fails on the caller thread (stray file with the next chunk's name)
+    bases += base_histories(rng, nb // 4, max_ops=22, worker_steps=True, faults=True, queries=(),
+                            flush_prob=(2, 3), weights=dict(append=45, purge=6, truncate=4))
+    from props import blocked_rotation_scripts
+    blocked = blocked_rotation_scripts([(f"x{i}", b) for i, b in enumerate(bases[: nb // 4])], rng, "t")
+    bases += [[l for l in b if l not in ("flush 9997", "stat", "dir")] for _, b in blocked]
     # crash points: after any line past `open`; and, for some of them, every amount of further
     # worker progress (0..k released steps) so that the crash falls between any two of its calls
     named = []
@@ -116,6 +126,11 @@ def scripts_crash(tier, rng, prefix):
         for p in ([fl[rng.below(len(fl))]] if fl else []):
             for k in range(1, 9 if tier == "quick" else 14):
                 named.append((f"{prefix}b{bi}p{p}w{k}", b[:p] + ["w ok"] * k))
+            # one injected EIO at every position of the worker's progress after that flush, then
+            # the worker runs on (later flushes may be acknowledged) before the crash
+            if bi % 3 == 0:
+                for k in range(0, 7 if tier == "quick" else 12):
+                    named.append((f"{prefix}b{bi}p{p}e{k}", b[:p] + ["w ok"] * k + ["w eio", "widle"]))
     lays = layouts(named)
     out = []
     for name, pre in named:
@@ -209,6 +224,8 @@ def oracle_c05(script, ig, mg):
     if "crash" not in script or any("legal no" in x for g in mg for x in g.info):
         return []  # no crash, or an image the crash model does not allow
     c0 = len(primary_cmds(script[:script.index("crash")]))
+    if len(ig) <= c0:
+        return []  # the script stopped (worker death / panic) before the crash was reached
     crashed = True
     for i, c in enumerate(prim):
         if i >= len(ig):
